@@ -186,6 +186,48 @@ theorem toM2_flatM2 {α : Type} [Zero α] (m : M2 α) : toM2 (flatM2 m) = m := b
   funext r c
   cases r <;> cases c <;> rfl
 
+theorem forall₂_map_eq {A B C : Type} {R : A → B → Prop} {f : B → C} {g : A → C} {l₁ : List A} {l₂ : List B}
+    (h : List.Forall₂ R l₁ l₂) (hfg : ∀ a b, a ∈ l₁ → R a b → f b = g a) : l₂.map f = l₁.map g := by
+  induction h with
+  | nil => rfl
+  | cons hab _ ih =>
+    simp only [List.map_cons]
+    rw [hfg _ _ (List.mem_cons_self ..) hab, ih (fun a b ha => hfg a b (List.mem_cons_of_mem _ ha))]
+
+theorem forall₂_right {A B : Type} {R : A → B → Prop} {l₁ : List A} {l₂ : List B} (h : List.Forall₂ R l₁ l₂) {b : B}
+    (hb : b ∈ l₂) : ∃ a ∈ l₁, R a b := by
+  induction h with
+  | nil => cases hb
+  | cons hab _ ih =>
+    rcases List.mem_cons.mp hb with rfl | hb
+    · exact ⟨_, List.mem_cons_self .., hab⟩
+    · obtain ⟨a, ha, r⟩ := ih hb
+      exact ⟨a, List.mem_cons_of_mem _ ha, r⟩
+
+/-- a default entry of the finished dictionary: a double tensor in a storage of its own, holding the default content -/
+def DefaultOK (h0 hfin : Heap κ) (e : Char × κ) (r : Char × TRef) : Prop :=
+  r.1 = e.1 ∧ h0.cells.length ≤ r.2.sid ∧ r.2.dt = .float64 ∧ hfin.read r.2.sid = some e.2
+
+theorem createDictArg_spec (cast : DType → κ → κ) (hc : ∀ v, cast .float64 v = v) (dd : Bool) (defaults : List (Char × κ))
+    (h : Heap κ) (kw : List (Char × Obj)) (hacc : Accepted h kw) :
+    ∃ h' ts ds, createDictArg cast dd defaults h kw = .ok (h', ts ++ ds) ∧ h.cells <+: h'.cells ∧
+      List.Forall₂ (EntryOK cast dd h h') kw ts ∧ List.Forall₂ (DefaultOK h h') defaults ds := by
+  obtain ⟨p0, f0⟩ := allocDefaults_spec h defaults
+  obtain ⟨h1, ts, e1, p1, f1⟩ := convertAll_spec cast hc dd h kw (allocDefaults h defaults).1 p0 hacc
+  refine ⟨h1, ts, (allocDefaults h defaults).2, by simp [createDictArg, e1], p0.trans p1, f1, List.Forall₂.imp ?_ f0⟩
+  intro a b hab
+  exact ⟨hab.1, hab.2.1, hab.2.2.1, by rw [read_of_prefix p1 (read_some_lt hab.2.2.2)]; exact hab.2.2.2⟩
+
+/-- a refused keyword makes the whole call fail (nothing is returned) -/
+theorem convertUnitary_refused (cast : DType → κ → κ) (dd : Bool) (h : Heap κ) (o : Obj) (hb : srcDType o.box = none) :
+    ∃ e, convertUnitary cast dd h o = .error e := by
+  cases hbx : o.box with
+  | tensor d => simp [hbx, srcDType] at hb
+  | ndarray d => simp [hbx, srcDType] at hb
+  | pyList e => cases e <;> simp [hbx, srcDType] at hb
+  | ragged => exact ⟨.ValueError, by simp [convertUnitary, hbx, torchTensor, srcDType, bind, Except.bind]⟩
+  | nonArray => exact ⟨.TypeError, by simp [convertUnitary, hbx, torchTensor, srcDType, bind, Except.bind]⟩
+
 /-! ### `vector_to_grads` -/
 
 theorem assignLoop_ok {α : Type} (vec : List α) (sizes : List Nat) (acc : List (List α)) (h : sizes.sum ≤ vec.length) :
